@@ -12,9 +12,16 @@ const ShrinkBudget = 2500
 // clause key. Candidate order is fixed, so shrinking is deterministic.
 func Shrink(c *Case, key string) (res *Case, n int) {
 	execs := 0
+	budget := ShrinkBudget
+	switch sz := c.Size(); { // an execution of a huge case costs up to a second: keep minimisation within minutes
+	case sz > 2<<20:
+		budget = 40
+	case sz > 200000:
+		budget = 400
+	}
 	type budgetDone struct{}
 	fails := func(x *Case) bool {
-		if execs >= ShrinkBudget {
+		if execs >= budget {
 			panic(budgetDone{}) // unwinds out of whatever candidate loop is running
 		}
 		execs++
@@ -30,10 +37,10 @@ func Shrink(c *Case, key string) (res *Case, n int) {
 			res, n = cur, execs
 		}
 	}()
-	for progress := true; progress && execs < ShrinkBudget; {
+	for progress := true; progress && execs < budget; {
 		progress = false
 		for _, gen := range []func(*Case, func(*Case) bool) bool{shrinkPlan, shrinkInput, shrinkMisc, shrinkRec, shrinkTrie, shrinkRegions} {
-			if execs >= ShrinkBudget {
+			if execs >= budget {
 				break
 			}
 			if gen(cur, func(cand *Case) bool {
